@@ -147,6 +147,10 @@ def hp_call(fn, *args):
         return None
     except (ValueError, OverflowError, TypeError):
         return None
+    except (AttributeError, NameError, IndexError, KeyError):
+        # the generated code uses something the shim does not provide (or is broken in a way of its own):
+        # no 50-digit confirmation is available, the float64 disagreement stands
+        return None
 
 
 # ---------------------------------------------------------------- C
